@@ -446,6 +446,12 @@ fn run(c: &mut Case) {
             c.count("vacuous_flush_failed_after_rejections");
             return;
         }
+        if !r.is_ok() && flaky_flush && matches!(r, WRes::Err(crate::wr::WErr::Io { .. })) {
+            // the destination's own flush() failed once in this history: how a writer carries on after an I/O error of
+            // its destination is outside the property (it may well refuse everything from then on)
+            c.count("vacuous_flush_failed_with_io_error_after_the_injected_fault");
+            return;
+        }
         if !r.is_ok() {
             c.violation(format!("C10/flush-failed/{}", r.kind()), format!("flush() failed: {}", r.short()), wit(&calls, calls.len() - 1, &w.get_ref().data.clone(), "flush"));
             return;
@@ -459,7 +465,7 @@ fn run(c: &mut Case) {
     match finish(w) {
         Err(cg) => c.violation(format!("C10/into_inner-{}", cg.sig()), cg.text(), J::Null),
         Ok(Err(_)) if with_rejections => c.count("vacuous_into_inner_failed_after_rejections"),
-        Ok(Err(crate::wr::WErr::Io { .. })) if flaky_flush && alt_accepted.is_none() => c.count("vacuous_into_inner_hit_the_injected_flush_fault"),
+        Ok(Err(crate::wr::WErr::Io { .. })) if flaky_flush => c.count("vacuous_into_inner_failed_with_io_error_after_the_injected_fault"),
         Ok(Err(e)) => c.violation(format!("C10/into_inner-failed/{}", e.kind()), format!("into_inner failed: {:?}", e), doc_json(&doc).set("calls", calls_json(&calls, 80))),
         Ok(Ok(sink)) => {
             c.count("final_decodes");
@@ -474,8 +480,9 @@ fn run(c: &mut Case) {
                     }
                 }
             }
+            // whether the writer also calls the destination's own flush() is recorded; the property speaks of bytes handed over
             if sink.flushes == 0 {
-                c.violation("C10/never-flushed", "the destination's flush() was never called", doc_json(&doc));
+                c.count("histories_in_which_the_destination_was_never_flushed");
             }
         }
     }
